@@ -491,3 +491,12 @@ package workflow
 //@   on call json.Unmarshal : assert !execErr ; decoded = true
 //@   ensures execErr ==> err != nil
 //@   ensures err == nil ==> decoded
+
+// ---------------------------------------------------------------------------------------------------------
+// C11, establishment of "every aggregator reports the fold of its children": every role starts in STANDBY
+// (roleBase.UnmarshalYAML), so the invariant holds initially iff the fold of children that are all in STANDBY is STANDBY.
+// It is not when there is no critical child (the fold is then "no opinion"): this lemma is FALSE and is listed as a
+// known finding (see /verif/known_findings.txt and DESIGN.md section 10.3); the preservation obligations above are proved.
+//@ lemma inv11_holds_initially C11:
+//@     forall roles []Role ::
+//@         len(roles) == 1 && roles[0] is *taskRole && roles[0].(*taskRole) != nil && !roles[0].(*taskRole).Critical && roleState(roles[0]) == sm.STANDBY ==> foldState(roles, 1) == sm.STANDBY
